@@ -435,6 +435,7 @@ pub fn run(opts: RunOptions) -> i32 {
     let mut reported = 0usize;
     let mut known_hits: BTreeMap<String, u64> = BTreeMap::new();
     let mut unconfirmed = 0usize;
+    let mut slow_judged_alone = 0u64;
     let replay_dir = PathBuf::from(verif_dir()).join("replays").join(prop.id);
     let mut seen_signatures: BTreeSet<String> = BTreeSet::new();
     for f in shared.found.iter().take(MAX_VIOLATIONS * 2) {
@@ -442,13 +443,25 @@ pub fn run(opts: RunOptions) -> i32 {
         let desc = check.describe(fam, idx);
         let confirm_cfgs: Vec<&str> = if f.config == "both" { opts.configs.clone() } else { vec![if f.config == "checked" { "checked" } else { "release" }] };
         let mut confirmed = f.kind == "config-divergence";
+        let mut completed_clean = !confirm_cfgs.is_empty();
         if !confirmed {
             for c in &confirm_cfgs {
                 let (kinds, _obs, status) = run_case_subprocess(c, prop.id, &tier_name, fam, idx);
+                if !(status == "ok" && kinds.is_empty()) {
+                    completed_clean = false;
+                }
                 if kinds.iter().any(|k| k == &f.kind) || (f.kind == "abort" && status == "signal") || (f.kind == "hang" && status == "hang") {
                     confirmed = true;
                 }
             }
+        }
+        if !confirmed && f.kind == "hang" && completed_clean {
+            // The worker's CPU watchdog fired (a heavy case on a loaded machine), but the same case, run
+            // alone in a fresh process under the same watchdog, returned and its oracle raised nothing:
+            // the case is judged by that execution. Not a verdict against the code, not a machinery error.
+            slow_judged_alone += 1;
+            println!("note: case {} exceeded the CPU watchdog inside a worker and was judged by its re-execution in a fresh process (completed, no violation)", f.g);
+            continue;
         }
         if !confirmed {
             unconfirmed += 1;
@@ -578,6 +591,7 @@ pub fn run(opts: RunOptions) -> i32 {
         );
     }
     coverage.insert("per_configuration".into(), Value::Object(per));
+    coverage.insert("slow_cases_judged_by_reexecution".into(), json!(slow_judged_alone));
     coverage.insert("distinct_observations".into(), json!(shared.results[rel].outcomes.len()));
     coverage.insert("chunks_compared_between_configurations".into(), json!(if opts.configs.len() == 2 {
         shared.results[opts.configs[0]].chunk_hash.keys().filter(|k| shared.results[opts.configs[1]].chunk_hash.contains_key(k)).count()
@@ -698,6 +712,8 @@ pub fn run_case_subprocess(config: &str, prop: &str, tier: &str, fam: usize, idx
                 "signal"
             } else if r.status.code() == Some(4) {
                 "hang"
+            } else if r.status.code() == Some(0) {
+                "ok"
             } else {
                 "exit"
             };
